@@ -299,10 +299,14 @@ class DefaultRealizationFilter(RealizationFilter):
         upper_bound = self._enopt_config.nonlinear_constraints.upper_bounds[
             self._filter_options.sort
         ]
-        if np.isfinite(lower_bound) or np.isfinite(upper_bound):
+        if np.isfinite(lower_bound) and np.isfinite(upper_bound):
             constraints = np.maximum(
                 lower_bound - constraints, constraints - upper_bound
             )
+        elif np.isfinite(lower_bound):
+            # Rank by the values themselves, subtracting them from the bound
+            # could remove the differences between them by rounding:
+            constraints = -constraints
         return _get_cvar_weights_from_percentile(
             -constraints, failed_realizations, self._filter_options.percentile
         )
